@@ -470,6 +470,29 @@ func validateSignatures(ms *MidState, txn types.Transaction) error {
 		e.used[sig.PublicKeyIndex] = true
 		e.need--
 
+		// the sighash functions index into the transaction with the covered
+		// fields, so out-of-range indices must be rejected first
+		inRange := func(indices []uint64, n int) bool {
+			for _, j := range indices {
+				if j >= uint64(n) {
+					return false
+				}
+			}
+			return true
+		}
+		if cf := sig.CoveredFields; !inRange(cf.SiacoinInputs, len(txn.SiacoinInputs)) ||
+			!inRange(cf.SiacoinOutputs, len(txn.SiacoinOutputs)) ||
+			!inRange(cf.FileContracts, len(txn.FileContracts)) ||
+			!inRange(cf.FileContractRevisions, len(txn.FileContractRevisions)) ||
+			!inRange(cf.StorageProofs, len(txn.StorageProofs)) ||
+			!inRange(cf.SiafundInputs, len(txn.SiafundInputs)) ||
+			!inRange(cf.SiafundOutputs, len(txn.SiafundOutputs)) ||
+			!inRange(cf.MinerFees, len(txn.MinerFees)) ||
+			!inRange(cf.ArbitraryData, len(txn.ArbitraryData)) ||
+			!inRange(cf.Signatures, len(txn.Signatures)) {
+			return fmt.Errorf("signature %v covers fields that are not present in the transaction", i)
+		}
+
 		switch pk := e.keys[sig.PublicKeyIndex]; pk.Algorithm {
 		case types.SpecifierEd25519:
 			var epk types.PublicKey
